@@ -70,10 +70,10 @@ def caught(seed, breaks):
 # ---- independent seeds
 for d in sorted(glob.glob(V + "/seeded/staging/C*")):
     pid = os.path.basename(d)
-    for x in "ABCD":
+    for x in "ABCDE":
         if not os.path.exists(d + "/%s.diff" % x):
             continue
-        nf = d + ("/notes.md" if x in "AB" else "/notes2.md")
+        nf = d + ("/notes.md" if x in "AB" else "/notes2.md" if x in "CD" else "/notes_E.md")
         notes = open(nf).read()
         sid = "%s-%s" % (pid, x)
         out = V + "/seeded/" + sid
@@ -105,7 +105,7 @@ for d in sorted(glob.glob(V + "/seeded/staging/C*")):
         also = {"C09-D": ["C07", "C03"], "C20-D": ["C01"], "C03-D": ["C01"], "C10-C": ["C07"], "C10-D": ["C04"], "C19-D": ["C12"]}.get(sid, [])
         meta = {"id": sid, "breaks": [pid] + also, "files": files,
                 "origin": ("written by an independent sub-agent that was given only the text of property %s and a scratch worktree of /repo (nothing from /verif)" % pid)
-                          + ("" if x in "AB" else "; second round: additionally told which two code sites the first round had already used, and to look elsewhere"),
+                          + ("" if x in "AB" else "; second round: additionally told which two code sites the first round had already used, and to look elsewhere" if x in "CD" else "; third round: additionally told which four code sites the earlier rounds had already used, and to look elsewhere"),
                 "what": what, "needs_to_manifest": "see notes.md (section for change %s)" % x,
                 "demo": "demo.rs: integration test(s) using only the public API; fails with the change, passes without",
                 "confirmed": conf, "caught": caught(sid, [pid] + also)}
